@@ -984,11 +984,11 @@ pub fn run(run: &mut Run) {
             let site = crate::seams::last_panic()
                 .map(|p| format!("{} ({})", p.location, p.message))
                 .unwrap_or_else(|| "unknown".into());
-            let loc = crate::seams::last_panic()
-                .map(|p| p.location)
-                .unwrap_or_else(|| "unknown".into());
+            let class = crate::seams::last_panic()
+                .map(|p| p.class())
+                .unwrap_or_else(|| "panic@unknown".into());
             run.violate(
-                format!("panic@{loc}"),
+                class,
                 format!("resolve panicked at {site}; keys [{}]", show_keys(&keys)),
             );
             return;
